@@ -75,6 +75,18 @@ func drawC06(t *rapid.T, x *X) *Case {
 	if !c.Opts.Memoize && !c.Opts.Stats && !c.Opts.Debug {
 		c.Opts.Memoize = true
 	}
+	if gspec.U(t, 100, "longinput") == 0 && len(c.Input) > 0 && x.G.Spec.Profile != "leftrec" {
+		// (not for left-recursive grammars: growing a seed re-parses from the rule's start, which
+		// is quadratic in the length by design)
+		// one case in a hundred: a long input (the memo table then holds tens of thousands of
+		// entries; the work bound holds for every size)
+		in := append([]byte{}, c.Input...)
+		for len(in) < 3000 {
+			in = append(in, c.Input...)
+		}
+		c.Input = in
+		c.Opts.Memoize, c.Opts.Debug = true, false
+	}
 	return c
 }
 
@@ -118,7 +130,11 @@ func checkC06(x *X, c *Case, strict bool) *Outcome {
 	g := x.G.Spec
 	base := *c
 	base.Opts.Memoize, base.Opts.Debug, base.Opts.Stats = false, false, false
-	ref := refpeg.Eval(g, c.Input, refOpts(&base))
+	ro := refOpts(&base)
+	if len(c.Input) >= 3000 {
+		ro.StepBudget = 3000000
+	}
+	ref := refpeg.Eval(g, c.Input, ro)
 	if ref.OverBudget {
 		return &Outcome{Discard: true}
 	}
@@ -131,6 +147,9 @@ func checkC06(x *X, c *Case, strict bool) *Outcome {
 		}
 	}
 	o := &Outcome{Tags: commonTags(c, ref)}
+	if len(c.Input) >= 3000 {
+		o.Tags = append(o.Tags, "long_input")
+	}
 	for _, n := range []struct {
 		on  bool
 		tag string
